@@ -580,3 +580,51 @@ Lemma fwrite_other {B} (s : @fs B) n n' b : n' <> n -> fwrite s n b n' = s n'.
 Proof.
   intros H. unfold fwrite. destruct (String.eqb_spec n' n); [contradiction|reflexivity].
 Qed.
+
+(* ------------------------------------------------------------------ *)
+(* Histories of operations: tolerance of every task                    *)
+(* ------------------------------------------------------------------ *)
+Lemma carry_ok {A} (tf tg : A) (tw : tol_writes) :
+  (forall k, tw k = TWrite k) ->
+  forall rq reg, Forall (task_ok tf tg) (snd (carry tf tg tw reg rq)).
+Proof.
+  intros Hown rq. induction rq as [|q r IH]; intros reg.
+  - cbn. constructor.
+  - destruct q as [k i|k]; cbn [carry].
+    + cbn [snd]. constructor.
+      * unfold task_ok, task_tol. cbn [fst snd]. rewrite Hown. reflexivity.
+      * apply IH.
+    + apply IH.
+Qed.
+
+Lemma run_hist_ok {A} (tf tg : A) (tw : tol_writes) (wrap : bool) :
+  (forall k, tw k = TWrite k) ->
+  forall ops st reg, Forall (task_ok tf tg) (run_hist tf tg tw wrap st reg ops).
+Proof.
+  intros Hown ops. induction ops as [|o r IH]; intros st reg.
+  - cbn. constructor.
+  - cbn [run_hist]. apply Forall_app. split.
+    + apply carry_ok. exact Hown.
+    + apply IH.
+Qed.
+
+(* collectors that trust the register + a wrapper around the adjoint stages:
+   compute -> clean('keepresults') -> jvec re-solves the dropped forward fields
+   with tol_gradient (2 slots, tol_forward = 7, tol_gradient = 3) *)
+Lemma trusting_wrapped_refuted_lemma :
+  exists ops : list hop,
+    In (KForward, 0, 3)
+       (run_hist 7 3 trusting true (mkHS [false; false] false) 7 ops)
+    /\ ~ task_ok 7 3 (KForward, 0, 3).
+Proof.
+  exists [HCompute; HCleanKeep; HJvec]. split.
+  - vm_compute. right. right. left. reflexivity.
+  - unfold task_ok. cbn. discriminate.
+Qed.
+
+Lemma ex_run_hist_nested :
+  run_hist 7 3 (fun k => TWrite k) true (mkHS [false; false] false) 7
+           [HCompute; HCleanKeep; HJvec]
+  = [(KForward, 0, 7); (KForward, 1, 7);
+     (KForward, 0, 7); (KJvec, 0, 3); (KForward, 1, 7); (KJvec, 1, 3)].
+Proof. vm_compute. reflexivity. Qed.
